@@ -567,7 +567,7 @@ def run(ctx):
     alphabet = EXH_ALPHABET if ctx.thorough else [EXH_ALPHABET[i] for i in (0, 1, 2, 3, 4, 5, 6, 7, 9, 12, 13, 14)]
     bad = [(p, d, alphabet, EXH_INIT) for p, d in exhaustive(ctx, depth, alphabet)]
     # every operation kind (dtype conversion, tidy_up, masks, fresh append_field, copy(), read-only, failing constructor / sort)
-    dfull = ctx.n(3, 4)
+    dfull = 3
     bad += [(p, d, EXH_FULL, EXH_INIT) for p, d in exhaustive(ctx, dfull, EXH_FULL)]
     ctx.extra['exhaustive_depth'] = depth
     ctx.extra['exhaustive_alphabet'] = len(alphabet)
@@ -630,7 +630,7 @@ MANIFEST = dict(
           'location shared between two slots) is preserved (c16_inv_step), selections and copies are fresh (c16_selection_fresh, '
           'c16_copy_fresh). Arrays handed in by the caller may already be columns elsewhere: in any state every operation except '
           'set_selection leaves all existing arrays untouched (c16_rebind_ops_frame) and, without write-through, the plain tables are still '
-          'refined (c16_refines_shared). The executable model is compared after every step with the real container (public accessors + '
+          'refined (c16_refines_shared). Row-level theorems independent of the bookkeeping: sorting permutes rows (c16_sort_rows, c16_isPerm_perm), selections gather rows, append concatenates rows, set_selection replaces exactly the selected rows in every column, copy equals its origin, rename keeps all columns; pre-fix sequential executors with proved counterexamples. The executable model is compared after every step with the real container (public accessors + '
           'np.shares_memory) on bounded-exhaustive and random operation sequences; a numpy-structured-array reference table is the '
           'failing-input oracle.'),
     note=('Values are small integers (dtype conversion modelled only as far as which column gets which dtype); set_selection whose source shares '
